@@ -516,7 +516,7 @@ class _Normaliser:
                 g = lc.generators[0]
                 elt: ast.AST = lc.elt
                 inner: T.List[ast.stmt] = []
-                if isinstance(elt, ast.Call):
+                if isinstance(elt, (ast.Call, ast.IfExp)):
                     self.uid += 1
                     tmp = f'elt__c{self.uid}'
                     inner.append(ast.Assign(targets=[ast.Name(id=tmp, ctx=ast.Store())], value=elt))
